@@ -1846,3 +1846,212 @@ fn c10_create_continuity_frame() {
     kani::cover!(set_default, "created as the workspace default");
     core::mem::forget(r);
 }
+
+// ---------------------------------------------------------------------------------------------------------
+// C01 / C05 / C03-kernel: ONE APPEND STEP of each of the 11 real append_* functions, taken right after an authority
+// restart (the in-memory next-seq table is empty, so the seq is recovered through load_next_seq_for -- whose own
+// obligation is the c05_next_seq family -- and here answers ANY u64 n).
+//   numbering : exactly one frame reaches the truth log; it carries seq n and the thread's stream id, the right frame
+//               type and the caller's payload
+//   lock      : the next-seq mutex is held when the truth log and the sidecar are written (asserted inside the stubs)
+//   advance   : at the moment of the truth-log write the in-memory next seq is still n (cached, NOT advanced); after the
+//               call it is n + 1
+//   effects   : truth log first, then the sidecar (handed the very same frame object), then the live channel, with a frame of the same seq / stream / type /
+//               payload (so a thread-stream subscriber that subscribes and THEN replays the log misses nothing: C06)
+// What made this finish (the earlier `c05_append_step!` never did): load_next_seq_for stubbed directly, the store built
+// by kani_store_env, and only `HashMap::insert` replaced by the recording model (`model_map_insert`): the real table
+// stays the empty singleton, the REAL `get` answers None at once. The steady-state arm (`Some(seq) => seq`) is therefore
+// NOT exercised; everything after the seq choice is shared by both arms.
+// ---------------------------------------------------------------------------------------------------------
+#[repr(C)]
+struct AEnv {
+    next: u64,
+    store: *const ContinuityStore,
+    table: *const HashMap<String, u64>,
+    effects: u32,
+    log_at: u32,
+    cache_at: u32,
+    log_seq: u64,
+    log_stream_ok: bool,
+    log_kind: u8,
+    payload_ok: bool,
+    table_inserts_at_log: u64,
+    table_value_at_log: u64,
+    lock_held_at_log: bool,
+    lock_held_at_cache: bool,
+    log_event: usize,
+    cache_same_event: bool,
+    loads: u32,
+    send_at: u32,
+    send_same_frame: bool,
+}
+fn aenv_of(p: &Path) -> &mut AEnv {
+    unsafe { &mut *(p.as_os_str().as_encoded_bytes().as_ptr() as *mut AEnv) }
+}
+fn a_load_next_seq(this: &ContinuityStore, _id: &str) -> Result<u64, io::Error> {
+    let env = aenv_of(&this.data_dir);
+    env.loads += 1;
+    Ok(env.next)
+}
+fn is1(s: &str, b: u8) -> bool {
+    s.len() == 1 && s.as_bytes()[0] == b
+}
+fn is1o(s: &Option<String>, b: u8) -> bool {
+    match s {
+        Some(s) => is1(s, b),
+        None => false,
+    }
+}
+// (frame type tag, payload equals what the harness passed)
+fn a_kind_and_payload(kind: &EventKind) -> (u8, bool) {
+    match kind {
+        EventKind::ContinuityMessageAppended { actor_id, origin, content } => (1, is1(actor_id, b'u') && is1(origin, b'o') && is1(content, b'x')),
+        EventKind::ContinuityRunSpawned { run_session_id, message_id, actor_id, origin } => (2, is1(run_session_id, b's') && is1(message_id, b'm') && is1o(actor_id, b'u') && is1o(origin, b'o')),
+        EventKind::ContinuityContextSelectionDecided { run_session_id, message_id, compiler_id, compiler_strategy, actor_id, origin, compaction_checkpoint, reason, .. } =>
+            (3, is1(run_session_id, b's') && is1(message_id, b'm') && is1(compiler_id, b'c') && is1(compiler_strategy, b'y') && is1(actor_id, b'u') && is1(origin, b'o') && compaction_checkpoint.is_none() && reason.is_none()),
+        EventKind::ContinuityContextCompiled { run_session_id, bundle_artifact_id, compiler_id, compiler_strategy, from_seq, from_message_id, actor_id, origin } =>
+            (4, is1(run_session_id, b's') && is1(bundle_artifact_id, b'b') && is1(compiler_id, b'c') && is1(compiler_strategy, b'y') && *from_seq == 7 && is1o(from_message_id, b'm') && is1(actor_id, b'u') && is1(origin, b'o')),
+        EventKind::ContinuityProviderCursorUpdated { provider, endpoint, model, cursor, action, reason, run_session_id, actor_id, origin } =>
+            (5, is1(provider, b'v') && is1o(endpoint, b'e') && model.is_none() && cursor.is_none() && is1(action, b'a') && reason.is_none() && is1o(run_session_id, b's') && is1(actor_id, b'u') && is1(origin, b'o')),
+        EventKind::ContinuityCompactionCheckpointCreated { cut_rule_id, summary_kind, summary_artifact_id, from_seq, from_message_id, to_seq, to_message_id, actor_id, origin, .. } =>
+            (6, is1(cut_rule_id, b'c') && is1(summary_kind, b'k') && is1(summary_artifact_id, b'b') && *from_seq == 3 && from_message_id.is_none() && *to_seq == 9 && is1o(to_message_id, b'm') && is1(actor_id, b'u') && is1(origin, b'o')),
+        EventKind::ContinuityCompactionAutoScheduleDecided { decision_id, policy_id, decision, execute, stride_messages, max_new_checkpoints, message_count, job_id, actor_id, origin, .. } =>
+            (7, is1(decision_id, b'd') && is1(policy_id, b'p') && is1(decision, b'n') && *execute && *stride_messages == 5 && *max_new_checkpoints == 2 && *message_count == 11 && job_id.is_none() && is1(actor_id, b'u') && is1(origin, b'o')),
+        EventKind::ContinuityJobSpawned { job_id, job_kind, details, actor_id, origin } => (8, is1(job_id, b'j') && is1(job_kind, b'k') && details.is_none() && is1(actor_id, b'u') && is1(origin, b'o')),
+        EventKind::ContinuityJobEnded { job_id, job_kind, status, result, error, actor_id, origin } => (9, is1(job_id, b'j') && is1(job_kind, b'k') && is1(status, b't') && result.is_none() && is1o(error, b'e') && is1(actor_id, b'u') && is1(origin, b'o')),
+        EventKind::ContinuityRunEnded { run_session_id, message_id, reason, actor_id, origin } => (10, is1(run_session_id, b's') && is1(message_id, b'm') && is1(reason, b'r') && is1o(actor_id, b'u') && is1o(origin, b'o')),
+        EventKind::ContinuityToolSideEffects { run_session_id, tool_id, tool_name, affected_paths, checkpoint_id, actor_id, origin } =>
+            (11, is1(run_session_id, b's') && is1(tool_id, b't') && is1(tool_name, b'n') && affected_paths.is_none() && is1o(checkpoint_id, b'c') && is1(actor_id, b'u') && is1(origin, b'o')),
+        _ => (0, false),
+    }
+}
+fn a_lock_held(env: &AEnv) -> bool {
+    unsafe { (*env.store).next_seq.try_lock().is_err() }
+}
+fn a_log_append(this: &EventLog, event: &Event) -> io::Result<()> {
+    let env = aenv_of(rip_log::verif_kani::kani_event_log_path(this));
+    env.effects += 1;
+    env.log_at = env.effects;
+    env.log_seq = event.seq;
+    env.log_stream_ok = is1(&event.session_id, b'p');
+    let (k, ok) = a_kind_and_payload(&event.kind);
+    env.log_kind = k;
+    env.payload_ok = ok;
+    let (ins, val) = unsafe { model_map_state(&*env.table) };
+    env.table_inserts_at_log = ins;
+    env.table_value_at_log = val;
+    env.lock_held_at_log = a_lock_held(env);
+    env.log_event = event as *const Event as usize;
+    Ok(())
+}
+fn a_cache_append(this: &ContinuityStreamCache, event: &Event) {
+    let env = aenv_of(crate::continuity_stream_cache::verif_kani::kani_cache_dir(this));
+    env.effects += 1;
+    env.cache_at = env.effects;
+    env.cache_same_event = env.log_event == event as *const Event as usize;
+    env.lock_held_at_cache = a_lock_held(env);
+}
+// The broadcast stub is generic over the channel's item type and is handed nothing but the sender: it finds the recorder
+// through the store that CONTAINS the sender (container-of on the harness's stack object).
+fn a_send<T>(this: &broadcast::Sender<T>, value: T) -> Result<usize, broadcast::error::SendError<T>> {
+    assert!(core::mem::size_of::<T>() == core::mem::size_of::<Event>(), "broadcast stub used for a channel it does not model");
+    let store = unsafe {
+        &*((this as *const broadcast::Sender<T> as *const u8).sub(core::mem::offset_of!(ContinuityStore, sender)) as *const ContinuityStore)
+    };
+    let env = aenv_of(&store.data_dir);
+    env.effects += 1;
+    env.send_at = env.effects;
+    let ev = unsafe { &*(&value as *const T as *const Event) };
+    let (k, ok) = a_kind_and_payload(&ev.kind);
+    env.send_same_frame = ev.seq == env.log_seq && is1(&ev.session_id, b'p') && k == env.log_kind && ok;
+    core::mem::forget(value);
+    Ok(1)
+}
+macro_rules! c01_append_step {
+    ($name:ident, $kind:expr, $call:expr) => {
+        c01_append_step!($name, $kind, true, $call);
+    };
+    ($name:ident, $kind:expr, $broadcast:expr, $call:expr) => {
+        #[kani::proof]
+        #[kani::unwind(6)]
+        #[kani::stub(std::fmt::format, stub_fmt_format)]
+        #[kani::stub(std::hash::RandomState::new, stub_random_state_new)]
+        #[kani::stub(uuid::Uuid::new_v4, stub_uuid_v4)]
+        #[kani::stub(now_ms, stub_now_ms_sym)]
+        #[kani::stub(alloc::string::ToString::to_string, stub_to_string_keep_thread)]
+        #[kani::stub(ContinuityStore::load_next_seq_for, a_load_next_seq)]
+        #[kani::stub(std::collections::HashMap::insert, model_map_insert)]
+        #[kani::stub(rip_log::EventLog::append, a_log_append)]
+        #[kani::stub(ContinuityStreamCache::append_best_effort, a_cache_append)]
+        #[kani::stub(broadcast::Sender::send, a_send)]
+        fn $name() {
+            let n: u64 = kani::any();
+            kani::assume(n < u64::MAX);
+            let mut env = AEnv {
+                next: n, store: core::ptr::null(), table: core::ptr::null(), effects: 0, log_at: 0, cache_at: 0, log_seq: 0,
+                log_stream_ok: false, log_kind: 0, payload_ok: false, table_inserts_at_log: 0, table_value_at_log: 0,
+                lock_held_at_log: false, lock_held_at_cache: false, log_event: 0, cache_same_event: false, loads: 0,
+                send_at: 0, send_same_frame: false,
+            };
+            let envp: *mut AEnv = &mut env;
+            let store = kani_store_env(envp as *mut Env);
+            env.store = &*store as *const ContinuityStore;
+            env.table = &*store.next_seq.lock().expect("seq mutex") as *const HashMap<String, u64>;
+            let f: fn(&ContinuityStore) -> Result<String, String> = $call;
+            let r = f(&store);
+            assert!(r.is_ok(), "append refused on an existing thread");
+            assert!(env.loads == 1, "next seq not recovered exactly once");
+            assert!(env.log_at == 1, "the truth-log line is not the first effect of the append (or it was written twice / never)");
+            assert!(env.log_seq == n, "appended frame does not carry the thread's next seq (duplicate or gap)");
+            assert!(env.log_stream_ok, "frame appended under another stream id");
+            assert!(env.log_kind == $kind, "frame of the wrong type appended");
+            assert!(env.payload_ok, "appended frame does not carry the caller's payload");
+            assert!(env.lock_held_at_log, "truth log written without holding the next-seq lock");
+            assert!(env.table_inserts_at_log == 1 && env.table_value_at_log == n, "the in-memory next seq was advanced BEFORE the truth-log append succeeded (or not cached)");
+            assert!(env.cache_at == 2, "the sidecar line does not directly follow the truth-log line (exactly once)");
+            assert!(env.cache_same_event, "the sidecar was handed a different frame than the truth log");
+            assert!(env.lock_held_at_cache, "sidecar written without holding the next-seq lock");
+            if $broadcast {
+                assert!(env.send_at == 3, "the frame is not published on the live channel exactly once, after the truth log and the sidecar");
+                assert!(env.send_same_frame, "the live channel was handed a different frame than the truth log");
+            } else {
+                assert!(env.send_at == 0, "a frame that is not broadcast was published");
+            }
+            let (inserts, last) = model_map_state(&*store.next_seq.lock().expect("seq mutex"));
+            assert!(inserts == 2 && last == n + 1, "in-memory next seq is not appended seq + 1 after a successful append");
+            kani::cover!(n == 0, "decided for seq 0");
+            kani::cover!(n > 1u64 << 40, "decided for a large seq");
+            core::mem::forget(r);
+        }
+    };
+}
+c01_append_step!(c01_append_message, 1, |s| s.append_message("p", lit("u"), lit("o"), lit("x")));
+c01_append_step!(c01_append_run_spawned, 2, |s| s.append_run_spawned("p", "m", "s", lit("u"), lit("o")));
+// MEASURED: > 600 s (by-value serde_json::Value and two Vecs in the payload: their drop/clone glue is not folded). Not registered.
+c01_append_step!(zz_c01_append_context_selection_decided, 3, |s| s.append_context_selection_decided("p", ContextSelectionDecidedPayload {
+    run_session_id: lit("s"), message_id: lit("m"), compiler_id: lit("c"), compiler_strategy: lit("y"), limits: serde_json::Value::Null,
+    compaction_checkpoint: None, compaction_checkpoints: Vec::new(), resets: Vec::new(), reason: None, actor_id: lit("u"), origin: lit("o") }));
+c01_append_step!(c01_append_context_compiled, 4, |s| s.append_context_compiled("p", ContextCompiledPayload {
+    run_session_id: lit("s"), bundle_artifact_id: lit("b"), compiler_id: lit("c"), compiler_strategy: lit("y"), from_seq: 7,
+    from_message_id: Some(lit("m")), actor_id: lit("u"), origin: lit("o") }));
+c01_append_step!(c01_append_provider_cursor_updated, 5, |s| s.append_provider_cursor_updated("p", ProviderCursorUpdatedPayload {
+    provider: lit("v"), endpoint: Some(lit("e")), model: None, cursor: None, action: lit("a"), reason: None, run_session_id: Some(lit("s")),
+    actor_id: lit("u"), origin: lit("o") }));
+c01_append_step!(c01_append_compaction_checkpoint_created, 6, |s| s.append_compaction_checkpoint_created("p", CompactionCheckpointCreatedPayload {
+    cut_rule_id: lit("c"), summary_kind: lit("k"), summary_artifact_id: lit("b"), from_seq: 3, from_message_id: None, to_seq: 9,
+    to_message_id: Some(lit("m")), actor_id: lit("u"), origin: lit("o") }));
+c01_append_step!(c01_append_auto_schedule_decided, 7, |s| s.append_compaction_auto_schedule_decided("p", CompactionAutoScheduleDecidedPayload {
+    decision_id: lit("d"), policy_id: lit("p"), decision: lit("n"), execute: true, stride_messages: 5, max_new_checkpoints: 2,
+    block_on_inflight: false, message_count: 11, cut_rule_id: lit("c"), planned: Vec::new(), job_id: None, job_kind: None, reason: None,
+    actor_id: lit("u"), origin: lit("o") }));
+c01_append_step!(c01_append_job_spawned, 8, |s| s.append_job_spawned("p", "j", "k", None, lit("u"), lit("o")));
+c01_append_step!(c01_append_job_ended, 9, |s| s.append_job_ended("p", JobEndedPayload {
+    job_id: lit("j"), job_kind: lit("k"), status: lit("t"), result: None, error: Some(lit("e")), actor_id: lit("u"), origin: lit("o") }));
+c01_append_step!(c01_append_run_ended, 10, |s| s.append_run_ended("p", "m", "s", lit("r"), lit("u"), lit("o")));
+c01_append_step!(c01_append_tool_side_effects, 11, |s| {
+    let run = core::mem::ManuallyDrop::new(ContinuityRunLink { continuity_id: lit("p"), message_id: lit("m"), actor_id: lit("u"), origin: lit("o") });
+    s.append_tool_side_effects(&run, "s", ToolSideEffects { tool_id: lit("t"), tool_name: lit("n"), affected_paths: None, checkpoint_id: Some(lit("c")) })
+});
+// the same step registered under C05: a crash between two effects leaves the truth log ahead of (never behind) the sidecar
+c01_append_step!(c05_append_effects_message, 1, |s| s.append_message("p", lit("u"), lit("o"), lit("x")));
+c01_append_step!(c05_append_effects_run_ended, 10, |s| s.append_run_ended("p", "m", "s", lit("r"), lit("u"), lit("o")));
